@@ -125,6 +125,17 @@ theorem readers_pure (o : Obj) (orig : Int) (share s : Bytes) :
     (step E o (.verifyShare orig share)).1 = o ∧ (step E o (.verifyThresholdSignature s)).1 = o := by
   refine ⟨?_, rfl, ?_, rfl⟩ <;> (simp only [step]; split <;> rfl)
 
+/-- **the stateless methods are history independent**: what `VerifyShare` and `VerifyThresholdSignature` return does
+    not depend on the object's pool, hence not on which shares were added before (verified or not) nor on any
+    concurrent writer - after any two histories `ops`, `ops'` from any two states the answers are equal -/
+theorem stateless_history_independent (o o' : Obj) (ops ops' : List Op) (orig : Int) (share s : Bytes) :
+    (step E (run E o ops).1 (.verifyShare orig share)).2 = (step E (run E o' ops').1 (.verifyShare orig share)).2 ∧
+    (step E (run E o ops).1 (.verifyThresholdSignature s)).2 =
+      (step E (run E o' ops').1 (.verifyThresholdSignature s)).2 := by
+  refine ⟨?_, rfl⟩
+  simp only [step]
+  split <;> rfl
+
 /-- the retained shares only grow (as a list prefix), hence `EnoughShares` never reverts to false -/
 theorem shares_grow (o : Obj) (op : Op) : ∃ extra, (step E o op).1.shares = o.shares ++ extra := by
   cases op with
@@ -309,6 +320,7 @@ end Props.C18
 #print axioms Props.C18.step_inv
 #print axioms Props.C18.run_inv
 #print axioms Props.C18.readers_pure
+#print axioms Props.C18.stateless_history_independent
 #print axioms Props.C18.enough_monotone
 #print axioms Props.C18.sig_stable
 #print axioms Props.C18.stateful_never_invalid
